@@ -823,13 +823,16 @@ class vDuration(TimeBase):
             raise ValueError(f'Invalid iCalendar duration: {ical}')
 
         sign, weeks, days, hours, minutes, seconds = match.groups()
-        value = timedelta(
-            weeks=int(weeks or 0),
-            days=int(days or 0),
-            hours=int(hours or 0),
-            minutes=int(minutes or 0),
-            seconds=int(seconds or 0)
-        )
+        try:
+            value = timedelta(
+                weeks=int(weeks or 0),
+                days=int(days or 0),
+                hours=int(hours or 0),
+                minutes=int(minutes or 0),
+                seconds=int(seconds or 0)
+            )
+        except OverflowError as e:
+            raise ValueError(f'Duration out of range: {ical}') from e
 
         if sign == '-':
             value = -value
@@ -931,6 +934,8 @@ class vPeriod(TimeBase):
         except TypeError as e:
             # date and datetime or offset-naive and offset-aware datetimes
             raise ValueError("Start and end MUST be of the same kind") from e
+        except OverflowError as e:
+            raise ValueError("The end of the period is out of range") from e
 
         self.params = Parameters({'value': 'PERIOD'})
         # set the timezone identifier
